@@ -29,6 +29,7 @@ import (
 	apiext "github.com/koordinator-sh/koordinator/apis/extension"
 	schedulingv1alpha1 "github.com/koordinator-sh/koordinator/apis/scheduling/v1alpha1"
 	"github.com/koordinator-sh/koordinator/pkg/scheduler/frameworkext/hinter"
+	"github.com/koordinator-sh/koordinator/pkg/scheduler/frameworkext/schedulingphase"
 	"github.com/koordinator-sh/koordinator/pkg/verifkit/vk"
 )
 
@@ -151,6 +152,14 @@ func c07RestrictToDesignated(free c07Flat, desig apiext.DeviceAllocations) c07Fl
 		}
 	}
 	return out
+}
+
+// c07Reserve calls Reserve the way the framework extender does (RunReservePluginsReserve records the phase in the cycle
+// state around the Reserve calls of the plugins).
+func c07Reserve(pl *Plugin, cs fwktype.CycleState, pod *corev1.Pod) *fwktype.Status {
+	schedulingphase.RecordPhase(cs, schedulingphase.Reserve)
+	defer schedulingphase.RecordPhase(cs, "")
+	return pl.Reserve(context.Background(), cs, pod, c07Node)
 }
 
 func c07Status(st *fwktype.Status) string {
@@ -327,7 +336,7 @@ func TestVerifC07PluginHistory(t *testing.T) {
 					sawDesignatedInterleaved = sawDesignatedInterleaved || (interleaved && desig != nil)
 				}
 				free := c07RestrictToDesignated(c07Free(w.modelTotal(), w.modelUsed()), desig)
-				st := pl.Reserve(bg, cs, pod, c07Node)
+				st := c07Reserve(pl, cs, pod)
 				if !st.IsSuccess() {
 					pl.Unreserve(bg, cs, pod, c07Node) // what the framework does when Reserve fails
 					noteMsg("  Reserve "+name+" refused", c07Status(st))
